@@ -298,3 +298,39 @@ reg("C09", [
       "(incl. a trailing empty option): written bytes == RFC 6891 layout, parse(reference bytes) == original",
       ["<ResourceRecord as WireFormat>::{write_to,parse,len}", "OPT::{parse,write_to,len}"], params={'only': ['OPT']}),
 ], [])
+
+_W_FUNCS = ["Packet::{write_to,write_compressed_to,build_bytes_vec,build_bytes_vec_compressed,write_header}", "MessageWriter::{write,seek}",
+            "ResourceRecord::{write_to,write_compressed_to,write_common}", "Name::{plain_append,compress_append}",
+            "typed RDATA write_to / write_compressed_to", "io::Cursor<Vec<u8>>, Cursor<&mut [u8]>, &mut [u8] (Write/Seek models)"]
+reg("C04", [
+    M("C04", "writers", "writers",
+      "5 (quick) / 8 (thorough) packet scenarios x {plain, compressed} x growable cursor at origin 0/2/5 over storage pre-filled with "
+      "k, k+n+7, n+3 symbolic bytes x fixed Cursor<&mut [u8]> and &mut [u8] of capacity n-3, n-1, n, n+2; all packet values symbolic",
+      _W_FUNCS, params={'part': 'writers'}),
+], ["writer kinds are models of the std implementations (Vec, Cursor<Vec>, Cursor<&mut [u8]>, &mut [u8]); other Write impls are outside"])
+reg("C07", [
+    M("C07", "pointers", "writers",
+      "5 (quick) / 8 (thorough) packet scenarios + all 7 must-not-compress types: an independent schema-aware walker over the compressed "
+      "output of build_bytes_vec_compressed; names from shared symbolic labels (solver chooses which names are equal)",
+      _W_FUNCS, params={'part': 'pointers'}),
+    M("C07", "origin", "writers",
+      "same scenarios written with write_compressed_to at writer offsets 2 and 5: bytes (hence every pointer) identical to the offset-0 output",
+      _W_FUNCS, params={'part': 'writers'}),
+    M("C07", "far", "packet_rt", "scenario 'far': names first written beyond offset 16383 (after a 16400-byte record) and then repeated",
+      _PKT_FUNCS, params={'only': ['far']}),
+], ["a pointer must land on the start of a label (or pointer) of a name written earlier at a compressible position; "
+    "RDATA names of the must-not-compress types are required to be written in full and are not considered pointer targets"])
+
+reg("C16", [
+    M("C16", "owned_hash", "owned_hash",
+      "per record type (41 variants + NULL), up to 4 (8) shapes each: record built from parts AND record parsed from its reference bytes: "
+      "clone()/into_owned() field-wise equal, real PartialEq true, identical bytes; two same-shape records with independent symbolic "
+      "contents: real eq true => identical Hasher byte streams",
+      ["<ResourceRecord as Clone>::clone", "ResourceRecord::into_owned", "RData::into_owned", "<T>::into_owned for every RDATA type",
+       "Name::into_owned", "Label::into_owned", "CharacterString::into_owned", "<ResourceRecord as PartialEq>::eq", "<ResourceRecord as Hash>::hash",
+       "derived PartialEq/Hash of RData and every RDATA type", "<Name as Hash>::hash", "<Name as PartialEq>::eq"]),
+], [
+    "the Hasher is a recording model: 'hash equally' is decided as equality of the byte streams fed to Hasher::write*",
+    "Packet and Question have no PartialEq/Hash; their owned copies are covered through C02.packet (parse borrows, build owns)",
+    "InstanceInformation (simple-mdns) equality/hash is not covered by this obligation",
+])
